@@ -223,6 +223,8 @@ def scenarios(pid, tier, seed):
     if pid == "C10":
         return [
             {"args": ["scen", "family=perfts", "depth=%d" % (2 if q else 3), "walkpos=%d" % (16 if q else 200), S], "shards": 16},
+            # depth 4 is where two move orders under one root first reach one placement with and without a live en-passant capture
+            {"args": ["scen", "family=perfts", "depth=4", "maxpieces=%d" % (5 if q else 7), "walkpos=%d" % (0 if q else 60), S], "shards": 16},
         ]
     if pid == "C14":
         return [
